@@ -243,7 +243,9 @@ reg("C11", harness="c11_checksum", level="fault_enumeration", deadline=(300, 240
                "substitutions at EVERY offset and decoded under one-shot (6 capacities), streaming, byte-at-a-time, 1-byte-output and every "
                "2-split drivers on kernels base/_01/_04: success only if the reference accepts the mutated bytes with the same output, and "
                "state.crc must equal the reference checksum. Producer: trailers of all levels x 4 wrapper modes x 5 chunkings x 4 CPU levels "
-               "are recomputed independently; thorough adds the 2^32+5-byte ISIZE wrap-around. Boundary part: a payload whose running Adler-32 "
+               "are recomputed independently. Streams of 2^32+77782 bytes (32-bit total_in/total_out and ISIZE wrap, 16-bit hash indices) go through "
+               "isal_deflate in 1 MiB pieces (quick: levels 0-1 on constant data; thorough: all levels x constant / mixed data): trailer against the "
+               "reference, then decoded again by isal_inflate (gzip verification) and zlib and compared with the input. Boundary part: a payload whose running Adler-32 "
                "halves pass through 0, 1, 65519, 65520 is split at EVERY position (output split for the verifier in 4 modes x 2 encodings, input "
                "split x 3 flush kinds x 4 levels for the producer) on the base/sse/avx2 Adler kernels, plus every boundary-valued prefix as a whole payload.",
     level_note="multi-bit corruptions that preserve CRC-32/Adler-32 are outside first-order closure (checksums are not collision-free); trusted: "
